@@ -60,6 +60,9 @@ fn rec(inner: Box<dyn Server>, accepted: &Accepted) -> Box<dyn Server> {
 
 /// An environment knows how to open handle `i` of its backend.
 pub struct Env {
+    /// the backend legitimately trims old history (object store with aged versions and snapshots):
+    /// the audit then goes through a fresh replica instead of walking the chain from nil
+    pub trimmed: bool,
     pub name: String,
     pub open: Box<dyn Fn(usize) -> Result<Box<dyn Server>, String>>,
     /// a handle for the final audit (fresh clone / fresh connection)
@@ -152,6 +155,48 @@ fn continue_and_audit(env: &Env, a: &mut Rep, b: &mut Rep, accepted: &Accepted, 
             return false;
         }
     };
+    if env.trimmed {
+        let ta = block_on(model::replica_tasks(a)).unwrap_or_default();
+        let tb = block_on(model::replica_tasks(b)).unwrap_or_default();
+        if ta != tb {
+            out.violate(sig("replicas-do-not-converge"), format!("after {what}: replicas A and B differ: {}", model::diff_tasks(&ta, &tb)), replay.clone());
+            return false;
+        }
+        // what a newcomer gets: the snapshot the server hands out plus the versions after it
+        let mut fresh = mem_rep();
+        if let Err(e) = block_on(fresh.sync(&mut h, true)) {
+            out.violate(sig("fresh-replica-cannot-sync"), format!("after {what}: {e:#}"), replay.clone());
+            return false;
+        }
+        let tf = block_on(model::replica_tasks(&mut fresh)).unwrap_or_default();
+        if tf != ta {
+            out.violate(sig("fresh-replica-differs"), format!("after {what}: a new replica ends up with {} where the others have {}", model::show_tasks(&tf), model::show_tasks(&ta)), replay.clone());
+            return false;
+        }
+        // and it can take part: one change of its own reaches the others
+        if commit(&mut fresh, &[AbsOp::Set(task(), "fresh".into(), "F".into(), ts(9))]).is_err() || block_on(fresh.sync(&mut h, true)).is_err() {
+            out.violate(sig("fresh-replica-cannot-contribute"), format!("after {what}: a new replica's first change cannot be synchronized"), replay.clone());
+            return false;
+        }
+        let lx;
+        match block_on(h.add_version(Uuid::from_u128(0xBAD), b"{\"operations\":[]}".to_vec())) {
+            Ok((AddVersionResult::ExpectedParentVersion(x), _)) => lx = x,
+            other => {
+                out.violate(sig("protocol/wrong-parent-not-rejected"), format!("after {what}: add_version(unknown parent) = {:?}", other.map(|r| r.0).map_err(|e| e.to_string())), replay.clone());
+                return false;
+            }
+        }
+        match block_on(h.get_child_version(lx)) {
+            Ok(GetVersionResult::NoSuchVersion) => {}
+            other => {
+                out.violate(sig("protocol/latest-has-child"), format!("after {what}: get_child_version(latest) = {:?}", other.map(|_| "a version").map_err(|e| e.to_string())), replay.clone());
+                return false;
+            }
+        }
+        out.count("continued_histories_audited", 1);
+        out.count("trimmed_histories_audited_through_a_fresh_replica", 1);
+        return true;
+    }
     let mut chain: Vec<(Uuid, Uuid, Vec<u8>)> = vec![];
     let mut cur = Uuid::nil();
     for _ in 0..200 {
@@ -224,6 +269,7 @@ fn local_env(dir: TempDir) -> Env {
     std::fs::create_dir_all(&p).unwrap();
     let p2 = p.clone();
     Env {
+        trimmed: false,
         name: "local".into(),
         open: Box::new(move |_| block_on(ServerConfig::Local { server_dir: p.clone() }.into_server()).map_err(|e| e.to_string())),
         open_audit: Box::new(move || block_on(ServerConfig::Local { server_dir: p2.clone() }.into_server()).map_err(|e| e.to_string())),
@@ -324,7 +370,7 @@ impl DecisionSource for FaultAt {
     }
 }
 
-fn cloud_case(i: u64, n_requests: &std::sync::atomic::AtomicUsize, out: &mut CaseOut) {
+fn cloud_case(i: u64, aged: bool, n_requests: &std::sync::atomic::AtomicUsize, out: &mut CaseOut) {
     // i = k * 3 + kind
     let k = (i / 3) as usize;
     let kind = i % 3;
@@ -333,11 +379,12 @@ fn cloud_case(i: u64, n_requests: &std::sync::atomic::AtomicUsize, out: &mut Cas
         1 => (2u8, false, "perform-then-fail"),
         _ => (0u8, true, "client-dropped"),
     };
-    let replay = json!({"stratum": "object-store", "index": i, "request": k, "kind": kname});
+    let replay = json!({"stratum": if aged { "object-store-aged" } else { "object-store" }, "index": i, "request": k, "kind": kname});
     set_random_source(Some(Box::new(|| Some(200))));
     let world = std::rc::Rc::new(World::new());
     let (w1, w2) = (world.clone(), world.clone());
     let env = Env {
+        trimmed: aged,
         name: "object-store".into(),
         open: Box::new(move |c| Ok(Box::new(w1.plain(c)) as Box<dyn Server>)),
         open_audit: Box::new(move || Ok(Box::new(w2.plain(77)) as Box<dyn Server>)),
@@ -346,13 +393,20 @@ fn cloud_case(i: u64, n_requests: &std::sync::atomic::AtomicUsize, out: &mut Cas
     let accepted: Accepted = Default::default();
     let mut a = mem_rep();
     let mut b = mem_rep();
-    if let Err(e) = prior(&env, &mut a, &mut b, &accepted) {
+    let pr = if aged { prior_aged(&env, &world, &mut a, &mut b, &accepted) } else { prior(&env, &mut a, &mut b, &accepted) };
+    if let Err(e) = pr {
         out.violate("object-store/prior-failed".to_string(), e, replay);
         set_random_source(None);
         return;
     }
+    if aged {
+        // every draw is 0 from here on: the add_version of the target sync runs the cleanup
+        // (expired versions, a superseded snapshot) and asks for a snapshot
+        set_random_source(Some(Box::new(|| Some(0))));
+    }
     // the target sync runs as the only client under the scheduler, with a fault at request k
     let gates = Gates::new(1);
+    let log0 = world.store.log_len();
     let mut srv: Box<dyn Server> = rec(Box::new(world.gated(0, &gates, 2)), &accepted);
     let mut src = FaultAt { k, decision, drop_client, hit: false };
     let steps;
@@ -371,6 +425,10 @@ fn cloud_case(i: u64, n_requests: &std::sync::atomic::AtomicUsize, out: &mut Cas
         return;
     }
     out.count("object_store_faults", 1);
+    if aged {
+        let dels = world.store.log()[log0..].iter().filter(|e| e.op == taskchampion::server::verif::GateOp::Del).count() as u64;
+        out.count("aged_syncs_with_cleanup_deletions", (dels > 0) as u64);
+    }
     let what = format!("{kname} at object-store request {k} of the sync");
     if continue_and_audit(&env, &mut a, &mut b, &accepted, out, &replay, &what) {
         out.nontrivial = Some(fnv(format!("cloud{i}").as_bytes()));
@@ -379,6 +437,40 @@ fn cloud_case(i: u64, n_requests: &std::sync::atomic::AtomicUsize, out: &mut Cas
         }
     }
     set_random_source(None);
+}
+
+/// Prior history for the aged object-store stratum: versions 400..250 days old, two snapshots
+/// (the older one superseded), both replicas up to date, replica A with a pending change.
+fn prior_aged(env: &Env, world: &World, a: &mut Rep, b: &mut Rep, accepted: &Accepted) -> Result<(), String> {
+    const DAY: u64 = 86400;
+    let e = |e: taskchampion::Error| format!("prior sync: {e:#}");
+    let mut sa = rec((env.open)(0)?, accepted);
+    let mut sb = rec((env.open)(1)?, accepted);
+    let snap = |rep: &mut Rep, srv: &mut Box<dyn Server>, world: &World| -> Result<(), String> {
+        let t = block_on(model::replica_tasks(rep)).map_err(|e| e.to_string())?;
+        let v = world.latest().ok_or("no latest")?;
+        block_on(srv.add_snapshot(v, crate::props::c12::encode_snapshot(&t))).map_err(|e| format!("prior snapshot: {e:#}"))
+    };
+    world.store.set_clock(world.now.saturating_sub(400 * DAY));
+    commit(a, &[AbsOp::Set(task(), "p".into(), "A0".into(), ts(1))])?;
+    block_on(a.sync(&mut sa, true)).map_err(e)?;
+    snap(a, &mut sa, world)?;
+    world.store.set_clock(world.now.saturating_sub(300 * DAY));
+    block_on(b.sync(&mut sb, true)).map_err(e)?;
+    commit(b, &[AbsOp::Set(task(), "q".into(), "B1".into(), ts(2))])?;
+    block_on(b.sync(&mut sb, true)).map_err(e)?;
+    block_on(a.sync(&mut sa, true)).map_err(e)?;
+    world.store.set_clock(world.now.saturating_sub(250 * DAY));
+    commit(a, &[AbsOp::Set(task(), "r".into(), "A2".into(), ts(3))])?;
+    block_on(a.sync(&mut sa, true)).map_err(e)?;
+    snap(a, &mut sa, world)?;
+    world.store.set_clock(world.now.saturating_sub(200 * DAY));
+    commit(a, &[AbsOp::Set(task(), "r2".into(), "A3".into(), ts(3))])?;
+    block_on(a.sync(&mut sa, true)).map_err(e)?;
+    world.store.set_clock(world.now);
+    block_on(b.sync(&mut sb, true)).map_err(e)?;
+    commit(a, &[AbsOp::Set(task(), "r".into(), "A4".into(), ts(5)), AbsOp::Set(task(), "q".into(), "A4q".into(), ts(1))])?;
+    Ok(())
 }
 
 // ---- git ------------------------------------------------------------------------------------------
@@ -453,6 +545,7 @@ impl GitWorld {
 fn git_env_of(w: std::rc::Rc<GitWorld>, name: &str) -> Env {
     let (w1, w2) = (w.clone(), w.clone());
     Env {
+        trimmed: false,
         name: name.into(),
         open: Box::new(move |c| block_on(w1.cfg(c).into_server()).map_err(|e| format!("{e:#}"))),
         // audit: a fresh clone when there is a remote, the same repository otherwise
@@ -623,11 +716,24 @@ pub fn run(ctx: &Ctx) -> Outcome {
         let (lo, hi) = range(40 * 3);
         run_cases(&mut acc, "object-store", hi - lo, |i| {
             let mut out = CaseOut::new();
-            cloud_case(i + lo, &max, &mut out);
+            cloud_case(i + lo, false, &max, &mut out);
             out
         });
         if only.is_none() {
             acc.exhaustive_parts.push(format!("object-store: every request (0..{}) of the target sync x {{fail before, perform then fail, client dropped}}", max.load(std::sync::atomic::Ordering::Relaxed)));
+        }
+    }
+    if want("object-store-aged") {
+        let max = std::sync::atomic::AtomicUsize::new(0);
+        let (lo, hi) = range(40 * 3);
+        run_cases(&mut acc, "object-store-aged", hi - lo, |i| {
+            let mut out = CaseOut::new();
+            cloud_case(i + lo, true, &max, &mut out);
+            out
+        });
+        if only.is_none() {
+            acc.exhaustive_parts.push(format!("object-store-aged (expired versions, superseded snapshot, cleanup inside add_version): every request (0..{}) of the target sync x {{fail before, perform then fail, client dropped}}", max.load(std::sync::atomic::Ordering::Relaxed)));
+            acc.require("aged_syncs_with_cleanup_deletions", 5, "the aged object-store stratum saw too few syncs whose add_version ran a deleting cleanup");
         }
     }
     for with_remote in [false, true] {
